@@ -183,7 +183,7 @@ def run(tier, seed):
         "instances, data, ports and nets-as-pin-sets must equal the model; then compose+parse must reproduce them; "
         "bundled .eblif files go through the same well-formedness and round-trip clauses")
     found = {}
-    deadline = time.time() + (200 if tier == "quick" else 3000)
+    deadline = time.time() + (900 if tier == "quick" else 6000)
     cs = cases(tier)
     k = seed % 7
     engine_b.run_cases(ID, cs[k:] + cs[:k], cov, found, deadline, level="eblif-texts/" + tier)
